@@ -52,6 +52,8 @@ def atoms(t, out=None):
         atoms(t[1], out)
         atoms(t[2], out)
         atoms(t[3], out)
+    elif k == "tt":
+        out.update(t[1])
     return out
 
 
@@ -167,7 +169,98 @@ def subst(t, env):
     if k == "mix":
         return ("mix", frozenset(a for a in t[1] if env.get(a, a)[0] != "c") | frozenset(
             x for a in t[1] for x in atoms(env.get(a, a)) if env.get(a, a)[0] != "c"))
+    if k == "tt":
+        # rebuild as a sum of products and substitute
+        r = C0
+        for i, v in enumerate(t[2]):
+            if v:
+                prod = C1
+                for j, a in enumerate(t[1]):
+                    lit = subst(a, env)
+                    prod = t_and(prod, lit if (i >> j) & 1 else t_not(lit))
+                r = t_or(r, prod)
+        return norm(r)
     return t
+
+
+def evaluate(t, val):
+    """Truth value of a term under an assignment atom -> 0/1 (mix terms are not evaluable)."""
+    k = t[0]
+    if k == "c":
+        return t[1]
+    if k in ("S", "P"):
+        return val[t]
+    if k == "n":
+        return 1 - evaluate(t[1], val)
+    if k == "and":
+        return int(all(evaluate(x, val) for x in t[1]))
+    if k == "or":
+        return int(any(evaluate(x, val) for x in t[1]))
+    if k == "xor":
+        r = 0
+        for x in t[1]:
+            r ^= evaluate(x, val)
+        return r
+    if k == "ite":
+        return evaluate(t[2], val) if evaluate(t[1], val) else evaluate(t[3], val)
+    if k == "tt":
+        i = 0
+        for j, a in enumerate(t[1]):
+            i |= val[a] << j
+        return t[2][i]
+    raise Unsupported("mix term")
+
+
+def norm(t, limit=8):
+    """Canonical form of a boolean term with few atoms: constant, atom, negated atom, or its
+    truth table over the sorted atoms (so syntactically different but equal terms compare equal)."""
+    if t[0] in ("c", "S", "P"):
+        return t
+    try:
+        ats = sorted(atoms(t))
+    except Exception:
+        return t
+    if len(ats) > limit or _has_mix(t):
+        return t
+    table = []
+    for i in range(1 << len(ats)):
+        val = {a: (i >> j) & 1 for j, a in enumerate(ats)}
+        table.append(evaluate(t, val))
+    if all(v == 0 for v in table):
+        return C0
+    if all(v == 1 for v in table):
+        return C1
+    # drop atoms the function does not depend on
+    dep = []
+    for j, a in enumerate(ats):
+        if any(table[i] != table[i ^ (1 << j)] for i in range(len(table))):
+            dep.append(a)
+    if len(dep) == 1:
+        a = dep[0]
+        j = ats.index(a)
+        return a if table[1 << j] == 1 else ("n", a)
+    if len(dep) < len(ats):
+        t2 = []
+        for i in range(1 << len(dep)):
+            val = {a: 0 for a in ats}
+            for j, a in enumerate(dep):
+                val[a] = (i >> j) & 1
+            t2.append(evaluate(t, val))
+        return ("tt", tuple(dep), tuple(t2))
+    return ("tt", tuple(ats), tuple(table))
+
+
+def _has_mix(t):
+    k = t[0]
+    if k == "mix":
+        return True
+    if k == "n":
+        return _has_mix(t[1])
+    if k in ("and", "or", "xor"):
+        return any(_has_mix(x) for x in t[1])
+    if k == "ite":
+        return _has_mix(t[1]) or _has_mix(t[2]) or _has_mix(t[3])
+    return False
 
 
 def term_str(t):
@@ -187,6 +280,8 @@ def term_str(t):
         return "(%s?%s:%s)" % (term_str(t[1]), term_str(t[2]), term_str(t[3]))
     if k == "mix":
         return "mix{" + ",".join(sorted(term_str(x) for x in t[1])) + "}"
+    if k == "tt":
+        return "f(" + ",".join(term_str(a) for a in t[1]) + ")"
     return str(t)
 
 
@@ -657,4 +752,6 @@ class Interp:
             storage = [S(i) for i in range(rec_size_bytes * 8)]
         env = Env(list(storage), params, fn.rec, objs)
         self.block(fn.body, env)
-        return env.storage, env.ret
+        st = [norm(b) for b in env.storage]
+        ret = BV([norm(b) for b in env.ret.bits], env.ret.signed) if env.ret is not None else None
+        return st, ret
